@@ -500,7 +500,7 @@ class Mp4Atom(ObjectWithFields):
                 return parent
             return rv
         cur_pos = src.tell()
-        for item in deferred_boxes:
+        for inserted, item in enumerate(deferred_boxes):
             options.log.debug('Parsing deferred box: "%s"',
                               item['initial_data']['atom_type'])
             hdr = item['initial_data']
@@ -517,7 +517,9 @@ class Mp4Atom(ObjectWithFields):
                 Mp4Atom.load(src, new_atom, options)
             options.log.debug('finished parsing of deferred "%s"',
                               new_atom.atom_type)
-            rv.insert(item['index'], new_atom)
+            # index was the length of rv when the box was deferred: every deferred
+            # box that has been put back since then sits in front of it
+            rv.insert(item['index'] + inserted, new_atom)
         src.seek(cur_pos)
         if use_wrapper:
             return parent
